@@ -58,7 +58,7 @@ def main():
     rng = random.Random(seed * 7919 + 17)
     lengths = [0, 1, 2, 63, 64, 65, 127, 128, 129, 511, 512, 513, 4095, 4096, 4097]
     for i in range(count):
-        kind = i % 7
+        kind = i % 9
         if kind == 0:  # raw vector
             n = rng.choice(lengths + [rng.randrange(3000)])
             ones = gen_bits(rng, n)
@@ -67,7 +67,7 @@ def main():
                 big |= 1 << p
             write_case(d, i, F.enc_raw(n, big), ["type raw", "n %d" % n, "ones " + " ".join(map(str, ones))])
         elif kind == 1:  # integer vector
-            width = 1 + (i // 7) % 64
+            width = 1 + (i // 9) % 64
             n = rng.choice([0, 1, 2, 7, 64 // width + 1, rng.randrange(300)])
             values = [rng.getrandbits(width) for _ in range(n)]
             write_case(d, i, F.enc_int(width, values), ["type int", "width %d" % width, "values " + " ".join(map(str, values))])
@@ -76,7 +76,7 @@ def main():
             ones = gen_bits(rng, n)
             write_case(d, i, F.enc_bitvector(n, ones), ["type bitvector", "n %d" % n, "ones " + " ".join(map(str, ones))])
         elif kind == 3:  # sparse vector with an arbitrary admissible low width
-            width = 1 + (i // 7) % 64
+            width = 1 + (i // 9) % 64
             m = rng.choice([0, 1, 2, 17, rng.randrange(200), rng.randrange(2000)])
             max_n = min((1 << 64) - 1, (1 << width) * 4096)
             n = rng.choice([rng.randrange(1, max_n + 1), max_n, min(max_n, 1 << width), min(max_n, (1 << width) + 1), max(1, min(max_n, (1 << width) - 1))])
@@ -115,6 +115,15 @@ def main():
             symbols = [rng.getrandbits(width) for _ in range(1 + rng.randrange(12))] if rng.random() < 0.5 else None
             values = [(rng.choice(symbols) if symbols else rng.getrandbits(width)) for _ in range(n)]
             write_case(d, i, F.enc_wm(values), ["type wm", "values " + " ".join(map(str, values))])
+        elif kind == 7:  # byte vector (every length class modulo 8, and lengths around typical buffer sizes)
+            n = rng.choice([0, 1, 7, 8, 9, 15, 16, 17, rng.randrange(200), 4095, 4096, 4097, 8179, 16381])
+            data = bytes(rng.randrange(1, 256) for _ in range(n))
+            write_case(d, i, F.enc_bytes(data), ["type bytes", "hex " + data.hex()])
+        elif kind == 8:  # string
+            n = rng.choice([0, 1, 3, 7, 8, 9, 21, rng.randrange(120)])
+            alphabet = "abcXYZ019 _-" if rng.random() < 0.5 else "a\u00e9\u00df\u6f22\U0001F600z"
+            text = "".join(rng.choice(alphabet) for _ in range(n))
+            write_case(d, i, F.enc_string(text), ["type string", "hex " + text.encode("utf-8").hex()])
         else:  # wavelet matrix core
             width = 1 + rng.randrange(8)
             n = rng.choice([1, 2, 64, rng.randrange(1, 400)])
